@@ -493,8 +493,11 @@ func concurrentHistory(id int, rng *rand.Rand, dir string) vO {
 				op.Kind = "add2"
 			case r < 6:
 				op.Kind = "rem"
-			case r < 11:
+			case r < 10:
 				op.Kind = "proc"
+				if rng.Intn(3) == 0 {
+					op.Mid = "*" // every machine moves in one request: a reader sees all of it or none of it
+				}
 			default:
 				op.Kind = "read"
 			}
@@ -515,6 +518,24 @@ func concurrentHistory(id int, rng *rand.Rand, dir string) vO {
 		for _, k := range []string{"rem", "add2", "rem", "add"} {
 			opn++
 			plans[0] = append(plans[0], planned{opn, svcOp{Kind: k, Mid: "a", Msg: "m" + strconv.Itoa(opn)}})
+		}
+	}
+	if rng.Intn(4) == 0 {
+		// readers while one client moves both machines with every request
+		opn++
+		plans[0] = []planned{{opn, svcOp{Kind: "add", Mid: "a", Msg: "m" + strconv.Itoa(opn)}}}
+		opn++
+		plans[0] = append(plans[0], planned{opn, svcOp{Kind: "add", Mid: "b", Msg: "m" + strconv.Itoa(opn)}})
+		for k := 0; k < 3; k++ {
+			opn++
+			plans[0] = append(plans[0], planned{opn, svcOp{Kind: "proc", Mid: "*", Msg: "m" + strconv.Itoa(opn)}})
+		}
+		for c := 1; c < nc; c++ {
+			plans[c] = nil
+			for k := 0; k < 4; k++ {
+				opn++
+				plans[c] = append(plans[c], planned{opn, svcOp{Kind: "read", Mid: "a", Msg: "m" + strconv.Itoa(opn)}})
+			}
 		}
 	}
 	for c := 0; c < nc; c++ {
